@@ -441,6 +441,10 @@ func runHistory(spec *SeqSpec, hist []SeqEvent) *SeqRun {
 					}
 				}
 			}
+			var qBefore []any
+			if e.K == "op" || e.K == "resume" {
+				qBefore = c.BufShadow()
+			}
 			if e.K == "op" {
 				vsched.Send(boxes[e.T], *e.Op)
 			}
@@ -460,6 +464,28 @@ func runHistory(spec *SeqSpec, hist []SeqEvent) *SeqRun {
 			}
 			if (e.K == "op" || e.K == "resume") && st == vsched.DriveBlocked && !inOp[e.T] {
 				st = vsched.DriveYielded // back at the mailbox: the call completed
+			}
+			if e.K == "op" || e.K == "resume" {
+				// what this client step appended to the write buffer (nothing is consumed during a
+				// client step; a Clear that drains the buffer is recognised by the broken prefix)
+				if qAfter := c.BufShadow(); len(qAfter) > len(qBefore) {
+					same := true
+					for i := range qBefore {
+						same = same && qBefore[i] == qAfter[i]
+					}
+					if same {
+						for _, x := range qAfter[len(qBefore):] {
+							if it, ok := ristretto.VerifItem[int64](x); ok {
+								v, _ := it.Value.(int64)
+								fl := int64(it.Flag)
+								if it.IsWait {
+									fl = 3
+								}
+								vsched.Log(evEnq, int64(it.Key), v, fl)
+							}
+						}
+					}
+				}
 			}
 			run.Status = append(run.Status, st.String())
 			if after := c.BufShadow(); e.K == "applier" && len(headBefore) > 0 && (len(after) == 0 || after[0] != headBefore[0]) {
